@@ -1406,6 +1406,15 @@ void Validator::ValidatorImpl::validateVariable(const VariablePtr &variable, con
                 issue->mPimpl->mItem->mPimpl->setVariable(variable);
                 issue->mPimpl->setReferenceRule(Issue::ReferenceRule::VARIABLE_INITIAL_VALUE_VALUE);
                 addIssue(issue);
+            } else {
+                double value;
+                if (!convertToDouble(initialValue, value)) {
+                    auto issue = Issue::IssueImpl::create();
+                    issue->mPimpl->setDescription("Variable '" + variableName + "' in component '" + component->name() + "' has an initial value '" + initialValue + "' that is a representation of a CellML real valued number, but out of range of the 'double' type.");
+                    issue->mPimpl->mItem->mPimpl->setVariable(variable);
+                    issue->mPimpl->setReferenceRule(Issue::ReferenceRule::VARIABLE_INITIAL_VALUE_VALUE);
+                    addIssue(issue);
+                }
             }
         }
     }
